@@ -573,7 +573,14 @@ Error RACFGBuilder::move_reg_to_stack_arg(InvokeNode* invoke_node, const FuncVal
   Mem stack_ptr = ptr(_pass._sp.as<Gp>(), arg.stack_offset());
 
   if (reg.is_gp()) {
-    return cc().str(reg.as<Gp>(), stack_ptr);
+    // Store exactly the size of the argument: Apple's ABI packs 8-bit and 16-bit stack arguments at their natural size,
+    // so a wider store would overwrite the neighboring arguments or the memory that follows the argument area.
+    switch (TypeUtils::size_of(arg.type_id())) {
+      case 1: return cc().strb(reg.as<Gp>().w(), stack_ptr);
+      case 2: return cc().strh(reg.as<Gp>().w(), stack_ptr);
+      case 4: return cc().str(reg.as<Gp>().w(), stack_ptr);
+      default: return cc().str(reg.as<Gp>(), stack_ptr);
+    }
   }
 
   if (reg.is_vec()) {
